@@ -6,8 +6,7 @@
    including lookups of sequence-forming assertions by sequence number.
 
    Proved on the store model (one model for both backstores; their agreement with it, and hence with each other, is
-   the differential run): the theorems below, over every history of adds.  Search (FindMany) is modelled and tied but
-   has no theorem of its own. *)
+   the differential run): the theorems below, over every history of adds. *)
 From Coq Require Import List NArith ZArith Bool.
 Import ListNotations.
 Require Import V.lib.Bytes V.models.AssertStore V.proofs.AssertStoreProofs.
@@ -64,6 +63,56 @@ Theorem C19_sequence_lookup : forall s t prefix after maxf r,
 Proof. exact sequence_lookup. Qed.
 Print Assumptions C19_sequence_lookup.
 
+(* Search (FindMany): sound and complete with respect to the stored keys and the given headers *)
+Theorem C19_search_sound : forall s t hint m tg, In tg (search s t hint m) ->
+  exists c, a_tag c = tg /\ In c s /\ a_typ c = t /\ hint_match hint (a_key c) = true /\ cur s t (a_key c) m = Some c.
+Proof. exact search_sound. Qed.
+Print Assumptions C19_search_sound.
+
+Theorem C19_search_complete : forall s t hint m x c,
+  In x s -> a_typ x = t -> hint_match hint (a_key x) = true -> cur s t (a_key x) m = Some c ->
+  In (a_tag c) (search s t hint m).
+Proof. exact search_complete. Qed.
+Print Assumptions C19_search_complete.
+
+(* Search o Put: an accepted assertion is found, alone, by a search giving all its primary-key headers *)
+Theorem C19_search_after_put : forall s a s',
+  put s a = (s', Accepted) -> a_fmt a <= max_supp (a_typ a) ->
+  forallb (fun c => negb (is_nil_b c)) (a_key a) = true ->
+  search s' (a_typ a) (a_key a) (max_supp (a_typ a)) = [a_tag a].
+Proof. exact search_after_put. Qed.
+Print Assumptions C19_search_after_put.
+
+(* the filesystem store searches by escaped file names; for EVERY injective escape function that is the same search
+   (the same function must be used to write and to search: the escape is a parameter of the whole store) *)
+Theorem C19_search_any_injective_escape : forall esc : bytes -> bytes, (forall a b, esc a = esc b -> a = b) ->
+  forall s t hint m, search_esc esc s t hint m = search s t hint m.
+Proof. exact search_esc_injective. Qed.
+Print Assumptions C19_search_any_injective_escape.
+
+(* the escape of the filesystem backstore (escapeComp: url.QueryEscape, then "." and ".." get their dots escaped; repaired
+   in /repo commit 2f752eb, see KNOWN_FINDINGS `fixed:`), for ALL byte strings: it can be undone, hence is injective; its
+   result is never "." or "..", contains no path separator, and is empty only for the empty value *)
+Theorem C19_escape_injective : forall a b, escape_comp a = escape_comp b -> a = b.
+Proof. exact escape_comp_injective. Qed.
+Print Assumptions C19_escape_injective.
+
+Theorem C19_escape_safe : forall s,
+  is_dot (escape_comp s) = false /\ existsb (fun c => c =? 47) (escape_comp s) = false /\ (escape_comp s = [] -> s = []).
+Proof. exact escape_comp_safe. Qed.
+Print Assumptions C19_escape_safe.
+
+(* so filepath.Join's cleaning leaves every escaped key path alone, and distinct primary keys use distinct files *)
+Theorem C19_distinct_keys_distinct_files : forall k1 k2,
+  clean_path (map escape_comp k1) = clean_path (map escape_comp k2) -> k1 = k2.
+Proof. exact distinct_keys_distinct_files. Qed.
+Print Assumptions C19_distinct_keys_distinct_files.
+
+(* and searching by the escaped file names is the model search (instance of C19_search_any_injective_escape) *)
+Theorem C19_search_repaired_escape : forall s t hint m, search_esc escape_comp s t hint m = search s t hint m.
+Proof. exact search_repaired_escape. Qed.
+Print Assumptions C19_search_repaired_escape.
+
 (* non-vacuity *)
 Definition ex_k : list bytes := [[97]].
 Definition ex_hist : list asn :=
@@ -81,6 +130,12 @@ Example C19_ex_seq :
   (option_map a_tag (seq_after s 2 [[115]] 2 2), option_map a_tag (seq_after s 2 [[115]] (-1) 2),
    option_map a_tag (seq_after s 2 [[115]] (-1) 1), option_map a_tag (seq_after s 2 [[115]] 5 2))
   = (Some 3, Some 2, Some 3, None).
+Proof. vm_compute. reflexivity. Qed.
+Example C19_ex_escape : map escape_comp [[46]; [46; 46]; [46; 46; 46]; [97; 32; 43; 47; 233]]
+  = [[37; 50; 69]; [37; 50; 69; 37; 50; 69]; [46; 46; 46]; [97; 43; 37; 50; 66; 37; 50; 70; 37; 69; 57]].
+Proof. vm_compute. reflexivity. Qed.
+Example C19_ex_unrepaired_collides :   (* what the repair removed: QueryEscape alone lets two keys share a path *)
+  clean_path (map query_escape [[46]; [120]]) = clean_path (map query_escape [[120]; [46]]).
 Proof. vm_compute. reflexivity. Qed.
 Example C19_ex_clash : snd (db_add (mkDb [(3, [[99]])] [] []) (mkA 3 [[99]] 0 9 0 1)) = Clash.
 Proof. vm_compute. reflexivity. Qed.
